@@ -538,7 +538,8 @@ fn is_changed_after_unmarking_chemistry(mathml: Element) -> bool {
         } else if let Some(changed_value) = mathml.attribute_value(CHANGED_ATTR) {
             // only the invisible operators that canonicalization inserted go away (the re-parse adds them again);
             // a token lifted out of a synthesized mrow carries the same mark and must stay
-            if changed_value == ADDED_ATTR_VALUE && name(&mathml) == "mo" &&
+            // (inserted operators only ever sit in an mrow; an author's invisible operator that was lifted into a script or fraction position is not one)
+            if changed_value == ADDED_ATTR_VALUE && name(&mathml) == "mo" && name(&get_parent(mathml)) == "mrow" &&
                matches!(as_text(mathml), "\u{2061}" | "\u{2062}" | "\u{2063}" | "\u{2064}") {
                 mathml.remove_from_parent();
                 return true;
